@@ -409,6 +409,9 @@ func RunStorageErrors(c *Ctx) {
 									})
 								}
 							}
+							if st.has(fact("didErrIs", mk("const", m))) {
+								sentinel = true
+							}
 							if sentinel {
 								continue
 							}
